@@ -157,23 +157,8 @@ def s_from_ptr_len(ex, st, fr, ins, name, argv):
 _snp = [0]
 
 
-def snprintf_(ex, st, fr, ins, name, argv):
-    """snprintf(buf, size, fmt, ...) for the formats "%[.*|.N][L]{e,f}" with C semantics: at most size bytes are written
-    (modelled as: the whole buffer holds initialised, otherwise unknown bytes) and the return value is the length the
-    complete output would have: sign + digits before the point + point and precision (+ exponent field for e)."""
-    buf, size, fmtp = argv[0], argv[1], argv[2]
-    fmt = cstr(ex, st, fmtp).decode('latin-1')
-    m = re.match(r'^%(?:\.(\*|\d+))?(L?)([ef])$', fmt)
-    if not m or not tm.is_ic(size) or not isinstance(buf, Ptr) or buf.region is None:
-        raise Unsupported('snprintf format %r' % fmt)
-    rest = list(argv[3:])
-    if m.group(1) == '*':
-        prec = rest.pop(0)
-    else:
-        prec = tm.ic('i32', int(m.group(1)) if m.group(1) else 6)
-    x = rest.pop(0)
-    if not isinstance(x, tm.T) or not x.ty.startswith('f'):
-        raise Unsupported('snprintf argument %r' % (x,))
+def fmt_length(x, prec, kind):
+    """length (i32 term) of the complete C / to_chars rendering of x in %e ('e') or %f ('f') with the given precision"""
     T = x.ty
     i32 = lambda v: tm.ic('i32', v)
     ax = tm.mk('call', T, 'fabs', x)
@@ -186,7 +171,7 @@ def snprintf_(ex, st, fr, ins, name, argv):
     frac = sel(tm.mk('icmp', 'i1', 'sgt', prec, i32(0)), tm.mk('add', 'i32', prec, i32(1)), i32(0))
     emax = tm.FEMAX[T] + 1
     big = lambda k: F(10) ** k < F(2) ** emax           # 10^k representable in T?
-    if m.group(3) == 'e':
+    if kind == 'e':
         ed = i32(2)
         c3 = ge(F(10) ** 100) if big(100) else None
         s3 = tm.mk('and', 'i1', nz, lt(F(1, 10 ** 99)))
@@ -204,6 +189,29 @@ def snprintf_(ex, st, fr, ins, name, argv):
             if big(k):
                 body = sel(lt(F(10) ** k), i32(k), body)
     r = tm.mk('add', 'i32', tm.mk('add', 'i32', sign, frac), body)
+    return r
+
+
+
+
+def snprintf_(ex, st, fr, ins, name, argv):
+    """snprintf(buf, size, fmt, ...) for the formats "%[.*|.N][L]{e,f}" with C semantics: at most size bytes are written
+    (modelled as: the whole buffer holds initialised, otherwise unknown bytes) and the return value is the length the
+    complete output would have: sign + digits before the point + point and precision (+ exponent field for e)."""
+    buf, size, fmtp = argv[0], argv[1], argv[2]
+    fmt = cstr(ex, st, fmtp).decode('latin-1')
+    m = re.match(r'^%(?:\.(\*|\d+))?(L?)([ef])$', fmt)
+    if not m or not tm.is_ic(size) or not isinstance(buf, Ptr) or buf.region is None:
+        raise Unsupported('snprintf format %r' % fmt)
+    rest = list(argv[3:])
+    if m.group(1) == '*':
+        prec = rest.pop(0)
+    else:
+        prec = tm.ic('i32', int(m.group(1)) if m.group(1) else 6)
+    x = rest.pop(0)
+    if not isinstance(x, tm.T) or not x.ty.startswith('f'):
+        raise Unsupported('snprintf argument %r' % (x,))
+    r = fmt_length(x, prec, m.group(3))
     reg = st.wreg(buf.region)
     for o in range(buf.off, min(reg.size, buf.off + size.args[0])):
         _snp[0] += 1
@@ -250,6 +258,106 @@ def s_append_ptr_len(ex, st, fr, ins, name, argv):
 def s_append_sv_ref(ex, st, fr, ins, name, argv):
     _set(st, argv[0], norm(_get(st, argv[0]) + (sv_at(ex, st, argv[1]),)))
     return argv[0]
+
+
+def to_chars_(ex, st, fr, ins, name, argv):
+    """std::to_chars(first, last, value, chars_format, precision) by its contract: on success the characters are written to
+    [first, ptr) and ec is 0; when the output does not fit, ec = value_too_large, ptr = last and nothing is written (the
+    range is left unspecified).  The length is the same term as for snprintf; one successor state per possible length."""
+    first, last, x, fmt, prec = argv[0], argv[1], argv[2], argv[3], argv[4]
+    if not (isinstance(first, Ptr) and isinstance(last, Ptr) and first.region == last.region and first.region is not None):
+        raise Unsupported('to_chars range')
+    if not tm.is_ic(fmt):
+        # the format was chosen by earlier branches that were if-converted: one case per notation
+        if not isinstance(fmt, tm.T):
+            raise Unsupported('to_chars chars_format %r' % (fmt,))
+        outs = []
+        for k in (1, 2):
+            c = tm.mk('icmp', 'i1', 'eq', fmt, tm.ic(fmt.ty, k))
+            if tm.is_ic(c) and c.args[0] == 0:
+                continue
+            s2 = st.clone()
+            s2.assume(c)
+            r2 = to_chars_(ex, s2, s2.frames[-1], ins, name, [first, last, x, tm.ic(fmt.ty, k), prec])
+            outs += r2
+        return outs
+    if fmt.args[0] not in (1, 2):
+        raise Unsupported('to_chars with chars_format %d' % fmt.args[0])
+    room = last.off - first.off
+    L = fmt_length(x, prec, 'e' if fmt.args[0] == 1 else 'f')
+    res, normal = ins.res, ins.a[3]
+    out = []
+
+    def finish(s2, val):
+        f2 = s2.frames[-1]
+        if res is not None:
+            f2.env[res] = val
+        if normal is not None:
+            ex.jump(s2, f2, normal)
+        out.append(s2)
+    s2 = st.clone()
+    s2.assume(tm.mk('icmp', 'i1', 'sgt', L, tm.ic('i32', room)))
+    s2.events.append(('to_chars', 'value_too_large'))
+    finish(s2, ('agg', [Ptr(last.region, last.off), tm.ic('i32', 75)]))
+    for r in range(1, room + 1):
+        c = tm.mk('icmp', 'i1', 'eq', L, tm.ic('i32', r))
+        if tm.is_ic(c) and c.args[0] == 0:
+            continue
+        s3 = st.clone()
+        s3.assume(c)
+        reg = s3.wreg(first.region)
+        for o in range(first.off, first.off + r):
+            _snp[0] += 1
+            reg.cells[o] = (1, 'i8', tm.arg('i8', 'fmtbyte%d' % _snp[0]))
+        finish(s3, ('agg', [Ptr(first.region, first.off + r), tm.ic('i32', 0)]))
+    return out
+
+
+def s_from_range(ex, st, fr, ins, name, argv):
+    """std::string(first, last) over a character range"""
+    p, q = argv[1], argv[2]
+    if not (isinstance(p, Ptr) and isinstance(q, Ptr) and p.region == q.region and p.region is not None and q.off >= p.off):
+        raise Unsupported('string from an iterator range that is not one object')
+    reg = st.regions[p.region]
+    if q.off > reg.size:
+        st.ub.append(('load out of bounds', 'std::string(first, last) beyond %s' % reg.name))
+    missing = [o for o in range(p.off, min(q.off, reg.size)) if not any(o0 <= o < o0 + c[0] for o0, c in reg.cells.items())]
+    if missing:
+        st.ub.append(('read of uninitialised memory', 'std::string(first, last) copies %d never-written bytes of %s' % (len(missing), reg.name)))
+    try:
+        _set(st, argv[0], norm([nbytes(ex, st, p, tm.ic('i64', q.off - p.off))]))
+    except Unsupported:
+        _set(st, argv[0], (('raw', reg.name, q.off - p.off),))
+    return None
+
+
+def s_pop_back(ex, st, fr, ins, name, argv):
+    v = list(_get(st, argv[0]))
+    if not v:
+        # precondition of pop_back: !empty()
+        st.ub.append(('std::string::pop_back() on an empty string', ''))
+        st.status = 'ub-pop-back'
+        return None
+    if isinstance(v[-1], bytes):
+        v[-1] = v[-1][:-1]
+    else:
+        v.append(('popped-last-char',))
+    _set(st, argv[0], norm(v))
+    return None
+
+
+def case_fn(kind):
+    """PhQ::Lowercase / Uppercase / SnakeCase of a constant string: replaced by the documented result (stub)"""
+    def f(ex, st, fr, ins, name, argv):
+        b = nbytes(ex, st, argv[2], argv[1])
+        if any(c >= 128 for c in b):
+            raise Unsupported('%s of a non-ASCII string' % kind)
+        r = b.upper() if kind == 'Uppercase' else b.lower()
+        if kind == 'SnakeCase':
+            r = r.replace(b' ', b'_')
+        _set(st, argv[0], norm([r]))
+        return None
+    return f
 
 
 def s_empty(ex, st, fr, ins, name, argv):
@@ -414,6 +522,8 @@ TABLE = [
     (r'^%s::basic_string<std::allocator<char> >\(char const\*, std::allocator<char> const&\)$' % E(STR), s_from_cstr),
     (r'^%s::basic_string\(char const\*, unsigned long, std::allocator<char> const&\)$' % E(STR), s_from_ptr_len),
     (r'^%s::basic_string<%s, void>\(%s const&, std::allocator<char> const&\)$' % (E(STR), E(SV), E(SV)), s_from_sv_ref),
+    (r'^%s::basic_string<char( const)?\*, void>\(char( const)?\*, char( const)?\*, std::allocator<char> const&\)$' % E(STR), s_from_range),
+    (r'^std::to_chars\(char\*, char\*, (float|double|long double), std::chars_format, int\)$', to_chars_),
     (r'^%s::basic_string\(%s::__sv_wrapper, std::allocator<char> const&\)$' % (E(STR), E(STR)), s_from_sv_val),
     (r'^%s::~basic_string\(\)$' % E(STR), s_dtor),
     (r'^%s::operator=\(%s&&\)$' % (E(STR), E(STR)), s_assign_move),
@@ -424,6 +534,10 @@ TABLE = [
     (r'^%s::operator\+=\(%s const&\)$' % (E(STR), E(STR)), s_append_str),
     (r'^%s::operator\+=\(char const\*\)$' % E(STR), s_append_cstr),
     (r'^%s::empty\(\) const$' % E(STR), s_empty),
+    (r'^%s::pop_back\(\)$' % E(STR), s_pop_back),
+    (r'^(?:%s )?PhQ::SnakeCase(?:\[abi:cxx11\])?\(%s\)$' % (E(STR), E(SV)), case_fn('SnakeCase')),
+    (r'^(?:%s )?PhQ::Lowercase(?:\[abi:cxx11\])?\(%s\)$' % (E(STR), E(SV)), case_fn('Lowercase')),
+    (r'^(?:%s )?PhQ::Uppercase(?:\[abi:cxx11\])?\(%s\)$' % (E(STR), E(SV)), case_fn('Uppercase')),
     (r'^%s::(size|length)\(\) const$' % E(STR), s_size),
     (r'^%s std::operator\+<.*>\(char const\*, %s&&\)$' % (E(STR), E(STR)), _concat('c', 's')),
     (r'^%s std::operator\+<.*>\(char const\*, %s const&\)$' % (E(STR), E(STR)), _concat('c', 's')),
